@@ -45,6 +45,35 @@ var OpTemplates = []opTemplate{
 	{Text: "sort by a asc nulls last", Needs: []string{"a"}, Sort: []SortFlags{{true, false}}},
 	{Text: "top 2 by b desc nulls first", Needs: []string{"b"}, Sort: []SortFlags{{false, true}}},
 	{Text: "top 1 by a asc nulls last", Needs: []string{"a"}, Sort: []SortFlags{{true, false}}},
+	// 28-30: a second filter column, repeated sort keys
+	{Text: "where b > 1", Needs: []string{"b"}},
+	{Text: "sort by a asc, a desc", Needs: []string{"a"}, Sort: []SortFlags{{true, true}, {false, false}}},
+	{Text: "sort by b desc nulls first, a, b asc", Needs: []string{"a", "b"}, Sort: []SortFlags{{false, true}, {false, false}, {true, true}}},
+}
+
+// mixTemplates are the operators of H_C02mix: filters on two columns, limits, sorts, top,
+// projection, aggregation, extension, count, as.
+var mixTemplates = []int{0, 28, 12, 13, 9, 21, 15, 4, 7, 5, 17, 18}
+
+// H_C02mix: every sequence of l operators over mixTemplates on every table of r rows
+// (filter / limit / filter, limit / sort / limit, ... need two or three rows to show).
+func H_C02mix(l, r int) {
+	src := "T"
+	schema := []string{"a", "b"}
+	var flags [][]SortFlags
+	for i := 0; i < l; i++ {
+		t := OpTemplates[mixTemplates[verif.Concrete(verif.IntRange(0, len(mixTemplates)))]]
+		verif.Assume(hasAll(schema, t.Needs))
+		if t.Sets != nil {
+			schema = t.Sets
+		}
+		schema = append(append([]string{}, schema...), t.Adds...)
+		src += " | " + t.Text
+		flags = append(flags, t.Sort)
+	}
+	verif.Obs("program", src)
+	CheckPipelineFlags(src, DB{"T": symbolicTable([]string{"a", "b"}, r)}, flags)
+	verif.Cover("mix-checked")
 }
 
 func hasAll(schema, needs []string) bool {
@@ -178,14 +207,19 @@ func H_C02(l, r int) {
 }
 
 // limitOps are row-limit operators with literals of different digit counts and spellings.
-var limitOps = []string{"take 0", "take 1", "take 2", "take 3", "limit 10", "take 007", "top 2 by a", "top 10 by a", "limit 1"}
-var limitValue = []int{0, 1, 2, 3, 10, 7, 2, 10, 1}
+var limitOps = []string{"take 0", "take 1", "take 2", "take 3", "limit 10", "take 007", "top 2 by a", "top 10 by a", "limit 1",
+	"take 18446744073709551616", "limit 4294967297", "take 9223372036854775808", "take 0x2"}
+var limitValue = []int{0, 1, 2, 3, 10, 7, 2, 10, 1, 1 << 40, 1 << 40, 1 << 40, 2}
 
 // H_C02limits: sequences of l row limits on every 3-row table; a limit never moves or merges wrongly.
 func H_C02limits(l int) {
 	src := "T"
+	nops := len(limitOps)
+	if l >= 3 {
+		nops = 9 // the boundary literals (2^32+1, 2^63, 2^64, hexadecimal) take part in pairs only
+	}
 	for i := 0; i < l; i++ {
-		src += " | " + limitOps[verif.Concrete(verif.IntRange(0, len(limitOps)))]
+		src += " | " + limitOps[verif.Concrete(verif.IntRange(0, nops))]
 	}
 	verif.Obs("program", src)
 	CheckPipeline(src, DB{"T": symbolicTable([]string{"a", "b"}, 3)})
